@@ -378,6 +378,81 @@ def check_shell_grid(ctx, at, res, exc, a, tag=None):
         ctx.count("class:shell-grid-at-r0")
 
 
+# ---------------------------------------------------------------------- clones
+def _state(at):
+    """Public observable state of an atomic grid (arrays copied)."""
+    rg = at.rgrid
+    return {
+        "points": np.array(at.points),
+        "weights": np.array(at.weights),
+        "indices": np.array(at.indices),
+        "degrees": np.array([int(d) for d in at.degrees]),
+        "center": np.array(at.center, dtype=float),
+        "rotate": int(at.rotate),
+        "method": str(at.method),
+        "size": int(at.size),
+        "rgrid.points": np.array(rg.points),
+        "rgrid.weights": np.array(rg.weights),
+    }
+
+
+def _state_diff(a, b):
+    out = []
+    for k in a:
+        x, y = a[k], b[k]
+        same = (np.shape(x) == np.shape(y) and np.array_equal(x, y)) if isinstance(x, np.ndarray) else x == y
+        if not same:
+            out.append(k)
+    return out
+
+
+def check_clones(ctx, at, kinds, tag=None, shells=()):
+    """copy.copy / copy.deepcopy / pickle round trips of one AtomGrid are still that atomic grid.
+
+    Every clone goes through the post-conditions of a fresh grid (product identity with the clone's OWN centre, radial
+    grid, degrees, rotation seed; shell grids through the post-condition attached to get_shell_grid), must equal the
+    original bit for bit (arrays, index table, degrees, centre, seed, method, radial grid, shell grids = reproducibility
+    from the seed) and cloning must leave the original untouched.  An exception while cloning or while reading the
+    clone is a library exception (every class round-trips on the unchanged tree).
+    """
+    from gridrv.monitors import roundtrip
+
+    subj0 = tag or TAG["v"] or f"AtomGrid:{at.method}"
+    before = _state(at)
+    n = len(before["degrees"])
+    shells = sorted({int(i) for i in shells if 0 <= int(i) < n} | {0, n - 1})
+    saved = TAG["v"]
+    try:
+        for kind in kinds:
+            subj = f"{subj0}:{kind}"
+            TAG["v"] = subj
+            ctx.count(f"class:clone={kind}")
+            g = ctx.guard("clone-roundtrip", subj)
+            with g:
+                cl = roundtrip.clone(at, kind)
+                ctx.hit("AtomGrid.clone")
+                st = _state(cl)
+                diff = _state_diff(before, st)
+                ctx.check("clone-equals-original", subj, not diff, sig="differs:" + ",".join(diff[:3]), detail={"differs": diff, "kind": kind, "centre": before["center"], "rotate": before["rotate"]})
+                req = {"rgrid": cl.rgrid, "center": cl.center, "rotate": cl.rotate, "method": cl.method, "degrees": [int(d) for d in cl.degrees]}
+                check_atomgrid_identity(ctx, cl, req, tag=subj)
+                bad = []
+                for i in shells:
+                    for r_sq in (True, False):
+                        a = cl.get_shell_grid(i, r_sq=r_sq)  # post-condition on get_shell_grid decides clone-vs-own-arrays
+                        b = at.get_shell_grid(i, r_sq=r_sq)
+                        if not (np.array_equal(a.points, b.points) and np.array_equal(a.weights, b.weights)):
+                            bad.append((i, r_sq))
+                ctx.check("clone-shell-grids-equal-original", subj, not bad, sig="rotated" if before["rotate"] else "unrotated", detail={"first": bad[:2], "kind": kind})
+                v = np.cos(np.arange(before["size"], dtype=float))
+                ctx.check("clone-equals-original", subj + ":integrate", float(cl.integrate(v)) == float(at.integrate(v)) if before["size"] else True, sig="integrate-differs")
+            after = _state(at)
+            diff = _state_diff(before, after)
+            ctx.check("original-unchanged-by-cloning", subj, not diff, sig="changed:" + ",".join(diff[:3]), detail={"changed": diff, "kind": kind})
+    finally:
+        TAG["v"] = saved
+
+
 # ---------------------------------------------------------------------- install
 def install(ctx, identity=True, shells=True, pruned=True, preset=True):
     """Attach the post-conditions to the real class (idempotent per process)."""
